@@ -12,9 +12,11 @@ TERM_SIGS = [signal.SIGKILL, signal.SIGTERM, signal.SIGINT, signal.SIGUSR1, sign
 BUILTINS = ["alias", "minfd", "jobs"]
 
 
-def gen_role(rng, idx, n, big_ok=True):
+def gen_role(rng, idx, n, big_ok=True, tty=False):
     first, last = idx == 0, idx == n - 1
-    if first:
+    if first and tty:
+        t = rng.choice(["source", "source", "ignorer"])    # (stdin is the terminal: nothing to read from it)
+    elif first:
         t = rng.choice(["source", "source", "source", "ignorer", "sink"])
     elif last:
         t = rng.choice(["sink", "sink", "sink", "early", "ignorer", "filter", "source"])
@@ -48,7 +50,8 @@ def gen_scenario(rng, cfg):
             # a background job whose process ends at some scheduled moment during later pipelines
             for b in range(1 + rng.below(2)):
                 name = "b%d_%d" % (li, b)
-                role = {"t": rng.choice(["ignorer", "ignorer", "sink"]), "code": rng.below(256), "rchunk": 4096}
+                role = {"t": "ignorer" if cfg.get("on_pty") else rng.choice(["ignorer", "ignorer", "sink"]),
+                        "code": rng.below(256), "rchunk": 4096}
                 if rng.chance(25):
                     role["sig"] = int(rng.choice(TERM_SIGS))
                 lines.append({"text": "pup %s &" % name, "bg": True, "probe": False, "stages": [
@@ -61,7 +64,7 @@ def gen_scenario(rng, cfg):
             if k < 84 or n == 1:
                 pid_names += 1
                 name = "s%d_%d" % (li, i)
-                role = gen_role(rng, i, n, big_ok)
+                role = gen_role(rng, i, n, big_ok, tty=bool(cfg.get("on_pty")))
                 if role.get("n", 0) > 70000:
                     big_ok = False
                 stages.append({"kind": "pup", "name": name, "role": role, "text": "pup " + name})
@@ -83,6 +86,8 @@ def gen_scenario(rng, cfg):
                 externals.append({"line": this_line, "stage": rng.below(n),
                                   "sig": int(rng.choice([signal.SIGKILL, signal.SIGTERM, signal.SIGSTOP, signal.SIGSTOP]))})
     sc = {"prop": "C02", "lines": lines, "externals": externals, "faults": {}}
+    if cfg.get("on_pty"):
+        sc["on_pty"] = True
     if cfg.get("faults"):
         kind = rng.choice(["pipe", "fork", "fork"])
         sc["faults"] = {kind: [1 + rng.below(6), int(rng.choice([24, 23] if kind == "pipe" else [11, 12]))]}
@@ -269,10 +274,11 @@ def run_case(sc, picks=None, rng=None, keep_log=False):
 
 CONFIGS = {
     # name: (generator cfg, share of the batch)
-    "plain": ({"max_lines": 2}, 40),
-    "signals": ({"max_lines": 2, "externals": True}, 30),
+    "plain": ({"max_lines": 2}, 35),
+    "signals": ({"max_lines": 2, "externals": True}, 28),
     "faults": ({"max_lines": 2, "faults": True}, 15),
-    "background": ({"max_lines": 2, "background": True, "externals": True}, 15),
+    "background": ({"max_lines": 2, "background": True, "externals": True}, 12),
+    "on_pty": ({"max_lines": 2, "on_pty": True, "externals": True, "background": True}, 10),
 }
 
 TIERS = {"quick": 2400, "thorough": 40000}
